@@ -393,6 +393,12 @@ func blockOnListChangeWorker(
 		output = op()
 		if output.data != nil {
 			ctx.dsc.ds.passOnWakeServed(ws, keyNames)
+			if output.isErrorType() {
+				// the operation failed (a wrong-typed destination): the element is still there
+				for _, keyName := range keyNames {
+					ctx.dsc.ds.passOnOneWake(keyName)
+				}
+			}
 			return
 		}
 		// a different client obtained the list element before this client could: the wake-up
@@ -416,6 +422,10 @@ func fnBLMove(ctx *cmdContext, args map[string]any) (output respValue, err error
 		output, _ = fnLMove(ctx, args)
 		return
 	})
+	if dstKeyName, _ := args["destination"].(string); dstKeyName == srcKeyName && output.data != nil && !output.isErrorType() {
+		// rotated within one list: nothing was taken out of it
+		ctx.dsc.ds.passOnOneWake(srcKeyName)
+	}
 	return
 }
 
@@ -455,5 +465,9 @@ func fnBRPopLPush(ctx *cmdContext, args map[string]any) (output respValue, err e
 		output, _ = fnRPopLPush(ctx, args)
 		return
 	})
+	if dstKeyName, _ := args["destination"].(string); dstKeyName == srcKeyName && output.data != nil && !output.isErrorType() {
+		// rotated within one list: nothing was taken out of it
+		ctx.dsc.ds.passOnOneWake(srcKeyName)
+	}
 	return
 }
